@@ -88,7 +88,8 @@ void c01_case(Tape& t, Ctx& ctx) {
       for (int k = 0; k <= 3; ++k) (void)sp_heap->getTrajectory().evaluate(old.t0 + 0.25 * old.T[0], k);
       (void)sp_heap->getEnergy();
       by_points = t.flag();
-      if (by_points) sp_heap->update(tp, c.P, lib); else sp_heap->update(c.T, c.P, c.t0, lib);
+      if (defaulted) { if (by_points) sp_heap->update(tp, c.P); else sp_heap->update(c.T, c.P, c.t0); }   // the old problem had its own boundary state
+      else if (by_points) sp_heap->update(tp, c.P, lib); else sp_heap->update(c.T, c.P, c.t0, lib);
       rname = by_points ? "reused object: update(time points)" : "reused object: update(durations,start)";
       break;
     }
@@ -210,13 +211,17 @@ void c01_case(Tape& t, Ctx& ctx) {
       ctx.label("timespec:dyadic-bitwise");
     } else {
       double tmin = *std::min_element(c.T.begin(), c.T.end());
-      if (U / tmin <= 1e-12) {
+      // the time points are rounded: the durations the point route sees differ from the given ones by up to ulp(t_max), a relative
+      // perturbation U/T_min of the shortest duration, which the solve amplifies by up to the duration ratio.  That effect is part of the
+      // allowance (it is not an error of the library); the comparison is judged only where it stays small.
+      const ld pert = 64.0L * (ld)(U / tmin) * (ld)c.ratio;
+      if (pert <= 1e-6L) {
         for (int i = 0; i < N; ++i)
           for (int d = 0; d < D; ++d) {
             ld sc = std::max<ld>(c.M, seg_abs_scale(C, i, nc, d, (ld)c.T[i], 0));
             for (int k = 0; k < nc; ++k) {
               ld e = fabsl((ld)C(i * nc + k, d) - (ld)C2(i * nc + k, d)) * RefSpline::ipow(c.T[i], k);
-              VCHECK(ctx, e <= TAUF * sc, "time-spec-equivalence",
+              VCHECK(ctx, e <= (TAUF + pert) * sc, "time-spec-equivalence",
                      SplineOf<D, S>::name() << ": the two time specifications give different coefficient (" << i << "," << k << "," << d << "): " << g17(C(i * nc + k, d)) << " vs " << g17(C2(i * nc + k, d)) << " (N=" << N << ")");
             }
           }
